@@ -154,8 +154,11 @@ pub mod format {
         { unimplemented!() }
         // ASSUMED (format/convert.rs): fallible, total (never panics)
         #[verifier::external_body]
+        pub uninterp spec fn block_of(input: super::schema::Block, external_key: Option<crate::crypto::PublicKey>) -> Result<crate::token::Block, crate::error::Format>;
+        #[verifier::external_body]
         pub fn proto_block_to_token_block(input: &super::schema::Block, external_key: Option<crate::crypto::PublicKey>)
             -> (r: Result<crate::token::Block, crate::error::Format>)
+            ensures r == block_of(*input, external_key)
         { unimplemented!() }
     }
 
